@@ -7,6 +7,7 @@
 pub trait Source {
     fn any_bool(&mut self) -> bool;
     fn any_u8(&mut self) -> u8;
+    fn any_u16(&mut self) -> u16;
     fn any_u32(&mut self) -> u32;
     fn any_u64(&mut self) -> u64;
     fn any_usize(&mut self) -> usize;
@@ -30,6 +31,9 @@ impl Source for KaniSource {
         kani::any()
     }
     fn any_u8(&mut self) -> u8 {
+        kani::any()
+    }
+    fn any_u16(&mut self) -> u16 {
         kani::any()
     }
     fn any_u32(&mut self) -> u32 {
@@ -104,6 +108,9 @@ impl Source for ReplaySource {
     }
     fn any_u8(&mut self) -> u8 {
         self.next::<1>()[0]
+    }
+    fn any_u16(&mut self) -> u16 {
+        u16::from_le_bytes(self.next::<2>())
     }
     fn any_u32(&mut self) -> u32 {
         u32::from_le_bytes(self.next::<4>())
